@@ -186,6 +186,14 @@ Proof. vm_compute. repeat split. Qed.
 (** The model driver replays [current_behaviour] against the library.  While /repo has the two defects this is
     [code_today] and the statement below does NOT hold: the check reports this obligation as broken, next to the
     replayable failing inputs the runs find.  The commit that lands the repairs sets Ids.current_behaviour := repaired. *)
+
+(** the hand copy of [util::looksLikeUUID] in the model is the definition the translator regenerates from
+    src/util/util.cpp on every run *)
+Require NixV.Store.GenBridge NixV.Gen.GenUtil.
+Theorem C12_looksLikeUUID_is_generated : forall s, NixV.FileIO.Ids.looksLikeUUID s = NixV.Gen.GenUtil.looksLikeUUID s.
+Proof. exact NixV.Store.GenBridge.ids_looksLikeUUID_is_generated. Qed.
+Print Assumptions C12_looksLikeUUID_is_generated.
+
 Theorem C12_current_is_repaired : current_behaviour = repaired.
 Proof. reflexivity. Qed.
 Print Assumptions C12_current_is_repaired.
